@@ -26,6 +26,7 @@ func VerifHarness_C09_Handler() {
 	h.ServeHTTP(w, r)
 
 	verifAssert(verifNoLocksHeld(), "no lock is still held when the handler returns (a later request cannot hang)")
+	verifAssert(!verifHappened("stale_json_field"), "the decoded parameters are determined by the request body alone (nothing of an earlier request survives in a reused decoding target)")
 	verifAssert(verifRespHeaderCount() == 1, "exactly one status line is written")
 	if r.Method != http.MethodPost {
 		verifAssert(verifRespStatus() == 405 && verifRespWriteCount() == 0, "method other than POST: 405 and no body")
